@@ -40,8 +40,10 @@ def lattice(seed, quick):
         par = [par[i] for i in (0, 2, 4, 5, 7, 9, 10)]
     cfgs = []
     for kind in ("std", "ins"):
-        for s in (seed, seed + 1):
-            for p in par:
+        # seed 0 is a boundary value of its own (falsy): always present, on a sub-lattice when it
+        # is not one of the two seeds of this run
+        for s in (seed, seed + 1) + (() if 0 in (seed, seed + 1) else (0,)):
+            for p in par if s in (seed, seed + 1) else par[:2]:
                 p = dict(p)
                 up = p.pop("user_pool", None)
                 base = {"nlive": 10, "poolsize": 10, "maximum_uninformed": 10} if kind == "std" else {"max_iteration": 2}
@@ -215,7 +217,7 @@ def run(ctx):
     ctx.set("distinct_nontrivial", len(cfgs) + len(sched_items))
     ctx.set("seed_classes", {str(k): len(v) for k, v in classes.items()})
     ctx.set("pool_map_calls", {k: v["calls"] for k, v in base.items()})
-    ctx.set("rule", "lattice {std, INS} x 2 seeds x parallelisation settings (n_pool 1..4, user-supplied fork pool, chunk sizes 1/7/larger than any batch, parallel prior) run in separate interpreter processes (two PYTHONHASHSEED values) and twice inside one process; controllable in-process pool with every completion order (<= 5 per call) at each map call (deviation 1) and at pairs of calls (deviation 2, thorough). Distinct/non-trivial: distinct configurations + distinct schedules")
+    ctx.set("rule", "lattice {std, INS} x 2 seeds (+ seed 0) x parallelisation settings (n_pool 1..4, user-supplied fork pool, chunk sizes 1/7/larger than any batch, parallel prior) run in separate interpreter processes (two PYTHONHASHSEED values) and twice inside one process; controllable in-process pool with every completion order (<= 5 per call) at each map call (deviation 1) and at pairs of calls (deviation 2, thorough). Distinct/non-trivial: distinct configurations + distinct schedules")
     ctx.set("exhaustive", True)
     ctx.sample({"config": cfgs[3], "digest": "sha1(nested samples), logZ.hex(), sha1(log posterior weights), evaluation count"})
     ctx.assume(
